@@ -61,6 +61,30 @@ class KernelS(KernelX):
         # set_num_threads(n): NT becomes n
         if isinstance(s.value, ast.Call) and dotted(s.value.func).endswith('set_num_threads') and s.value.args:
             v = self.ev(s.value.args[0], st, quiet=True)
+            if isinstance(v, Int):
+                # numba.set_num_threads(n) raises unless 1 <= n: treated like an index obligation
+                from .bounds import Access
+                acc = Access('numba.set_num_threads', 0, v.lin, unparse(s.value.args[0]), s.lineno, False)
+                if prove.entails_ge(st, v.lin - 1):
+                    syms = self._goal_cone_syms(st, v.lin, Lin.const(1))
+                    why = {self.assumed_syms[x] for x in syms if x in self.assumed_syms}
+                    bare = st.copy()
+                    bare.facts.ge = [l for l in st.facts.ge if l not in self.assumed_facts]
+                    if self.assumed_facts and not prove.entails_ge(bare, v.lin - 1):
+                        from .absval import cone
+                        uge, _, _ = cone(st.facts.ge, st.facts.eq, v.lin.syms(), st.cases)
+                        why |= {self.assumed_facts[l] for l in uge if l in self.assumed_facts}
+                    acc.verdict, acc.detail = ('ASSUMED', '; '.join(sorted(why))) if why else ('PROVEN', f'{v.lin} >= 1')
+                else:
+                    w = prove.witness(st, v.lin - 1)
+                    if w is not None:
+                        acc.verdict, acc.detail, acc.witness = 'REFUTED', f'thread count {v.lin} can be < 1: numba.set_num_threads raises', w
+                    else:
+                        acc.verdict, acc.detail = 'UNKNOWN', f'cannot prove {v.lin} >= 1'
+                rank = {'PROVEN': 0, 'ASSUMED': 1, 'UNKNOWN': 2, 'REFUTED': 3}
+                old_ = self.accesses.get(acc.key)
+                if old_ is None or rank[acc.verdict] > rank[old_.verdict]:
+                    self.accesses[acc.key] = acc
             # NT is a single symbol per kernel: only record when not already constrained by an equality
             if isinstance(v, Int) and not getattr(st, '_nt_set', False):
                 st.facts.add_eq(Lin.sym('NT'), v.lin)
